@@ -1540,11 +1540,15 @@ async def run_case(case, r: R):
             t.cancel()
 
 
-LEVEL_TEXT = ('Work meter (sys.monitoring call/loop counts per injected frame, livelock detection of the virtual loop), fatal-'
-              'escape monitor and alive/answer oracle on a real victim device, over ~10^4 (quick) / ~10^6 (thorough) hostile '
-              'frames on 18 input surfaces: every truncation and length-field setting of ~450 hand-written valid PDUs is '
-              'enumerated, the rest is seeded random mutation in rounds of 1-10 frames followed by a reference request whose '
-              'expected answer is written down from the specification. Sampling of the byte-string space, not proof.')
+LEVEL_TEXT = ('Work meter (sys.monitoring PY_START/JUMP counts per injected frame, RAISE events for RecursionError/MemoryError, '
+              'livelock detection of the virtual loop), fatal-escape monitor and alive/answer oracle on a real victim device, over '
+              '~1.7x10^4 (quick) / ~1.06x10^6 (thorough) hostile frames on 18 input surfaces (ATT server and client side, SMP LE and '
+              'BR/EDR, LE and BR/EDR signalling, credit-based, basic and ERTM dynamic channels, SDP, RFCOMM mux and DLC, HFP AG and HF '
+              'AT streams, AVDTP, AVCTP/AVRCP, HCI events/ACL/SCO/ISO into the host on LE and BR/EDR links): every truncation length '
+              'and every length-field setting of ~500 hand-written valid PDUs is enumerated (every third one per seed in the quick '
+              'tier), the rest is seeded structure-aware mutation in rounds of 1-10 frames, each round followed by a reference request '
+              'whose expected answer is written down from the specification (~3x10^3 quick / ~1.9x10^5 thorough reference '
+              'evaluations). Sampling of the byte-string space, not proof.')
 LEVEL_NOTE = ('Trusted: the hand-written corpora, builders and reference parsers in vlib/ref_fuzz.py, the hand-driven L2CAP/'
               'RFCOMM/AT attacker in checks/c17.py, rig taps, the virtual-time loop, CPython sys.monitoring. A busy loop that '
               'makes no Python call and no backward jump inside bumble code would only show as a wall-clock watchdog '
